@@ -83,7 +83,15 @@ def main():
     print("keyword options read from **kwargs that no workload ever passes (%d):" % len(unread))
     for u in unread:
         print("  ", u)
+    direct = set()
+    for f in glob.glob(os.path.join(cov_dir, "direct-*.json")):
+        direct.update(json.load(open(f)))
+    indirect = sorted(k for k in d if k in entered and k not in direct and not any(part.startswith("_") for part in k.split(":")[1].split(".")))
+    print("public callables entered only from inside the library, never called by a workload itself (%d):" % len(indirect))
+    for k in indirect:
+        print("  ", k)
     d_ = json.load(open(os.path.join(VERIF, "apicov.json")))
+    d_["entered_only_from_inside_the_library"] = indirect
     d_["kwargs_options_never_passed"] = unread
     d_["parameters_never_set"] = unused
     d_["keyword_options_seen"] = {k: sorted(n[2:] for n in rec if n.startswith("**")) for k, rec in options.items() if any(n.startswith("**") for n in rec)}
